@@ -563,6 +563,9 @@ func (c *c02) track(u sim.UsedSpec) {
 }
 
 func (c *c02) Step(w *sim.World, s *sim.Step) *Viol {
+	if v := recvResponses("C02", s); v != nil {
+		return v
+	}
 	if s.Op.Kind == "tx" {
 		for _, m := range s.Msgs {
 			rm, ok := m.(*types.MsgReceiveMessage)
@@ -678,7 +681,7 @@ func (c *c02) Summary(w *sim.World) (string, []string) {
 
 var C02 = register(&HistProp{ID: "C02",
 	Genesis: func(t *rapid.T) *sim.GenSpec {
-		return sim.DrawGenesis(t, sim.GenOpts{UsedInGen: true, NoPause: true, Decoys: true, ManyUsed: true})
+		return sim.DrawGenesis(t, sim.GenOpts{UsedInGen: true, NoPause: true, Decoys: true, ManyUsed: true, NoAttesters: true})
 	},
 	Next: func(g *sim.G, i int) *sim.Op {
 		return Mix{Recv: 8, Replay: 7, Admin: 3, Send: 1, Multi: 1, RecvBroken: 35, AdminHolder: 85, Restart: 3, Rollback: 4, AttProbe: 3,
@@ -716,6 +719,9 @@ func (c *strict) Step(w *sim.World, s *sim.Step) *Viol {
 				return v
 			}
 			if v := unchanged(c.id, s); v != nil {
+				return v
+			}
+			if v := recvResponses(c.id, s); v != nil {
 				return v
 			}
 		}
@@ -865,7 +871,7 @@ func staleAttestationProbe(g *sim.G, label string) []*sim.Op {
 }
 
 var C03 = register(&HistProp{ID: "C03",
-	Genesis: func(t *rapid.T) *sim.GenSpec { return sim.DrawGenesis(t, sim.GenOpts{UsedInGen: true, Decoys: true, AbsentOpt: true, ManyUsed: true}) },
+	Genesis: func(t *rapid.T) *sim.GenSpec { return sim.DrawGenesis(t, sim.GenOpts{UsedInGen: true, Decoys: true, AbsentOpt: true, ManyUsed: true, OtherLocal: true, NoAttesters: true}) },
 	Next: func(g *sim.G, i int) *sim.Op {
 		if op := queuedOp(g); op != nil {
 			return op
